@@ -125,27 +125,51 @@ def check(tier, seed):
             h0 = [rng.randrange(256) for _ in range(rng.randrange(0, 9))]
             t1 = [rng.randrange(256) for _ in range(rng.randrange(1, 6))]
             t2 = [rng.randrange(256) for _ in range(rng.randrange(0, 6))]
-            how = rng.choice(['copy', 'copy', 'deepcopy', 'pickle'])
+            how = rng.choice(['copy', 'copy', 'deepcopy', 'pickle0', 'pickle1', 'pickle2', 'pickle5'])
+            if rng.random() < 0.3:
+                h0 = rng.choice([[], [0, 0, 0], [0x55, 0xaa, 0x00, 0xae, 0x53], [0] * 7])      # copies taken in the state (0, 0)
 
-            def run():
-                _, _, ck = impl_hist(h0)
-                c2 = copy.copy(ck) if how == 'copy' else copy.deepcopy(ck) if how == 'deepcopy' else pickle.loads(pickle.dumps(ck))
-                reset_copy = rng.random() < 0.3
+            _, _, ck = impl_hist(h0)
+            try:
+                c2 = copy.copy(ck) if how == 'copy' else copy.deepcopy(ck) if how == 'deepcopy' else pickle.loads(pickle.dumps(ck, protocol=int(how[6:])))
+            except Exception as e:      # noqa: an object that cannot be copied this way at all is not a property matter
+                res.notes['uncopyable'] = f'{how}: {type(e).__name__}'
+                continue
+            reset_copy = rng.random() < 0.3
+
+            def use():
                 if reset_copy:
                     c2.reset()
                 for x in t1:
                     ck.add(x)
                 for x in t2:
                     c2.add(x)
-                return ck.value(), c2.value(), reset_copy
-            try:
-                v1, v2, reset_copy = run()
-            except Exception as e:      # noqa: an object that cannot be copied this way is not a property matter
-                res.notes['uncopyable'] = f'{how}: {type(e).__name__}'
-                continue
+                return ck.value(), c2.value()
+            r_ = C.guarded(use)
+            if isinstance(r_, str):
+                v1 = v2 = (r_, 'copy-unusable')
+            else:
+                v1, v2 = r_
             cases.append(Case('checksum-copy', 'ck ' + C.hexs(bytes(h0 + t1)), f'{v1[0]} {v1[1]}', {'ops': h0 + t1, 'copied_by': how, 'role': 'original'}, kind='copy'))
             cases.append(Case('checksum-copy', 'ck ' + C.hexs(bytes(([] if reset_copy else h0) + t2)), f'{v2[0]} {v2[1]}',
                               {'ops': ([] if reset_copy else h0) + t2, 'copied_by': how, 'role': 'copy', 'original_then_got': t1}, kind='copy'))
+        # the same arithmetic in an interpreter started with -O (assert statements removed) and with -OO
+        import subprocess
+        import sys
+        hist = [[rng.randrange(256) for _ in range(n)] for n in (0, 1, 2, 5, 40, 300, 600)] + [[255] * 300, [0] * 5, [1] * 257]
+        prog = ('import sys, json\nsys.path.insert(0, sys.argv[1])\nfrom ubxlib.checksum import Checksum\nout = []\n'
+                'for h in json.loads(sys.argv[2]):\n    c = Checksum()\n    [c.add(x) for x in h]\n    a, b = c.value()\n'
+                '    out.append([a, b, bool(c.matches(a, b)), bool(c.matches((a + 1) % 256, b))])\nprint(json.dumps(out))')
+        import json as json_
+        for flag in ('-O', '-OO'):
+            p_ = subprocess.run([sys.executable, flag, '-c', prog, C.REPO, json_.dumps(hist)], stdout=subprocess.PIPE, stderr=subprocess.PIPE, timeout=120)
+            try:
+                outs = json_.loads(p_.stdout.decode())
+            except ValueError:
+                outs = [['!' + p_.stderr.decode()[-200:]]] * len(hist)
+            for h, o in zip(hist, outs):
+                impl = f'{o[0]} {o[1]}' if len(o) == 4 and o[2] and not o[3] else f'wrong under python {flag}: {o}'
+                cases.append(Case('checksum-optimised-interpreter', 'ck ' + C.hexs(bytes(h)), impl, {'ops': h[:64], 'n': len(h), 'interpreter_flag': flag}, kind='python' + flag))
         # step function from states reached through a 2-byte prefix
         ck = Checksum()
 
